@@ -61,8 +61,52 @@ func genUser(r *hutil.Rand) string {
 
 // hostile user names: anything printable a client can send (spaces, words of the message, forged fragments)
 func genHostileUser(r *hutil.Rand) string {
-	frags := []string{" from ", " port ", "from", "port", " ", "  ", "\t", "x", "bob", "Certificate invalid: expired", "Accepted publickey", "Accepted password for root", "Invalid user ", "ROOT LOGIN REFUSED FROM ", "Failed password for ", "User root ", "Address 1.2.3.4 maps to x", "maximum authentication attempts exceeded for ", "6.6.6.6", "22", " ssh2", "invalid user ", "User ", "'", "\"", "\\", ":", "[", "]", "%", "日本", "a b"}
-	switch r.Intn(8) {
+	frags := []string{" from ", " port ", "from", "port", " ", "  ", "\t", "x", "bob", "Certificate invalid: expired", "Accepted publickey", "Accepted password for root", "Invalid user ", "ROOT LOGIN REFUSED FROM ", "Failed password for ", "User root ", "Address 1.2.3.4 maps to x", "maximum authentication attempts exceeded for ", "6.6.6.6", "22", " ssh2", "invalid user ", "User ", "'", "\"", "\\", ":", "[", "]", "%", "日本", "a b",
+		"invalid user", "illegal user ", "#012", "\\n", "%0a", "&#10;", "#", "&"}
+	switch r.Intn(12) {
+	case 8:
+		// one of the edge names: a phrase of sshd's own messages or a truncation of one, an escape-looking text, the empty name
+		return hutil.Pick(r, edgeNames)
+	case 9:
+		// text that looks like an escape sequence of some layer (rsyslog's #ooo, C, URL, HTML, shell): to the daemon it is
+		// just text, the name is recorded as it stands and the attempt is recorded whatever it holds
+		n := 1 + r.Intn(3)
+		var sb strings.Builder
+		for i := 0; i < n; i++ {
+			if r.Bool() {
+				sb.WriteString(genUser(r))
+			}
+			sb.WriteString(hutil.Pick(r, escapeTexts))
+		}
+		if r.Bool() {
+			sb.WriteString(genUser(r))
+		}
+		return sb.String()
+	case 10:
+		// what sshd itself prints around a name, whole or cut, glued to a name with or without the blank
+		p := hutil.Pick(r, append(append([]string{}, userMarkers...), msgPhrases...))
+		if r.Chance(1, 2) {
+			p = hutil.Pick(r, userMarkers)
+		}
+		switch r.Intn(5) {
+		case 0:
+			p = strings.TrimRight(p, " ")
+		case 1:
+			p = strings.TrimSpace(p)
+		case 2:
+			p = p[:r.Intn(len(p)+1)]
+		case 3:
+			p = p[r.Intn(len(p)+1):]
+		}
+		switch r.Intn(4) {
+		case 0:
+			return p
+		case 1:
+			return p + genUser(r)
+		case 2:
+			return genUser(r) + p
+		}
+		return p + " " + genUser(r)
 	case 6:
 		// a complete "accepted" message inside the name: `ssh 'Accepted password for root from … ssh2'@host`
 		return fmt.Sprintf("Accepted password for %s from %s port %d ssh2", genUser(r), genAddr(r), r.Intn(65536))
@@ -351,6 +395,91 @@ func genForm(r *hutil.Rand, form string) genLine {
 		}
 	}
 	panic("unknown form " + form)
+}
+
+// what sshd itself puts directly in front of the user name in these messages (auth.c: authctxt->valid ? "" : "invalid user ";
+// "illegal user " in old releases)
+var userMarkers = []string{"invalid user ", "illegal user "}
+
+// further phrases of sshd's messages around a client-chosen name
+var msgPhrases = []string{" from ", " port ", " ssh2", "Failed password for ", "Invalid user ", "maximum authentication attempts exceeded for ",
+	"Accepted password for ", "Accepted publickey for ", "User ", "Connection closed by authenticating user ", " [preauth]", "Disconnecting invalid user ",
+	"Failed none for ", "Failed publickey for ", "error: ", " not allowed because ", "Certificate invalid: ", "ROOT LOGIN REFUSED FROM ",
+	": bad owner or modes for ", "Address ", " maps to ", "input_userauth_request: invalid user ", "(serial ", ") CA "}
+
+// text that some layer between the client and the daemon might take for an escape sequence: rsyslog's #ooo control
+// character escapes, C / JSON / shell / octal / hex escapes, URL and HTML encodings, quoting characters
+var escapeTexts = []string{"#012", "#011", "#015", "#000", "#177", "#033[0m", "#040", "#010#012", "#12", "#0123", "#200", "##012",
+	"\\n", "\\r\\n", "\\t", "\\012", "\\x0a", "\\u000a", "\\0", "\\e[2J", "%0a", "%0A", "%0d%0a", "%20", "%00", "%", "%%", "%s", "%n",
+	"&#10;", "&#x0a;", "&#xA;", "&amp;", "&lt;", "&nbsp;", "&", "^J", "^M", "^@", "$'\\n'", "\\\\", "\\", "\"", "'", "`", "\\\"", "${x}", "$(x)", "+", "=0A", "=?utf-8?q?=0A?=",
+	"\\N{LF}", "U+000A", "0x0a", "<LF>", "<br>"}
+
+// edgeNames: the systematic part of the client-chosen names, most telling first: the empty name; each marker without its
+// trailing blank, whole, doubled; escape-looking text alone and inside a name; every phrase trimmed; then EVERY proper
+// prefix and suffix of every phrase.
+var edgeNames = buildEdgeNames()
+
+func buildEdgeNames() []string {
+	var out []string
+	seen := map[string]bool{}
+	add := func(xs ...string) {
+		for _, x := range xs {
+			if !seen[x] && !strings.Contains(x, "\n") {
+				seen[x] = true
+				out = append(out, x)
+			}
+		}
+	}
+	add("")
+	m0 := userMarkers[0]
+	add(strings.TrimRight(m0, " "), m0, strings.TrimRight(userMarkers[1], " "))
+	add("a"+escapeTexts[0]+"b", escapeTexts[0], "x"+escapeTexts[12]+"y", "x%0ay", "x&#10;y", userMarkers[1], "from", " port")
+	for _, m := range userMarkers {
+		t := strings.TrimRight(m, " ")
+		add(t, m, m+" ", " "+t, t+"x", m+m, m+t, strings.ToUpper(t[:1])+t[1:])
+	}
+	for _, e := range escapeTexts {
+		add("a"+e+"b", e, "root"+e)
+	}
+	all := append(append([]string{}, userMarkers...), msgPhrases...)
+	for _, p := range all {
+		add(strings.TrimRight(p, " "), strings.TrimLeft(p, " "), p)
+	}
+	for _, p := range all {
+		for k := 1; k < len(p); k++ {
+			add(p[:k], p[k:])
+		}
+	}
+	return out
+}
+
+// the five messages that print a client-chosen name followed by the peer address and port
+var clientForms = []string{"invalid_user", "failed_password", "failed_password_invalid", "max_attempts", "max_attempts_invalid"}
+
+func clientNameLine(form, name, addr, port string) genLine {
+	e := &expEvent{Src: addr, Port: sp(port), LoggedAs: name, UserID: "unknown"}
+	switch form {
+	case "invalid_user":
+		return genLine{Form: form, Line: fmt.Sprintf("Invalid user %s from %s port %s", name, addr, port), Exp: e, Method: "UnknownLogin"}
+	case "failed_password":
+		return genLine{Form: form, Line: fmt.Sprintf("Failed password for %s from %s port %s ssh2", name, addr, port), Exp: e, Method: "UnknownLogin"}
+	case "failed_password_invalid":
+		return genLine{Form: form, Line: fmt.Sprintf("Failed password for invalid user %s from %s port %s ssh2", name, addr, port), Exp: e, OnlySrc: true, Method: "UnknownLogin"}
+	case "max_attempts":
+		return genLine{Form: form, Line: fmt.Sprintf("maximum authentication attempts exceeded for %s from %s port %s ssh2", name, addr, port), Exp: e, Method: "UnknownLogin"}
+	}
+	return genLine{Form: "max_attempts_invalid", Line: fmt.Sprintf("maximum authentication attempts exceeded for invalid user %s from %s port %s ssh2", name, addr, port), Exp: e, OnlySrc: true, Method: "UnknownLogin"}
+}
+
+// genClientNameEdge: the idx-th pair of the systematic walk (edge name, message form); name-major, so consecutive
+// indices take one name through all five forms.  No randomness: the same walk in every run.
+func genClientNameEdge(idx int) genLine {
+	total := len(edgeNames) * len(clientForms)
+	idx = ((idx % total) + total) % total
+	name := edgeNames[idx/len(clientForms)]
+	addrs := []string{"10.1.2.3", "2001:db8::7", "host.example.com", "fe80::1%eth0"}
+	ports := []string{"22", "0", "65535", "40022"}
+	return clientNameLine(clientForms[idx%len(clientForms)], name, addrs[(idx/3)%len(addrs)], ports[(idx/7)%len(ports)])
 }
 
 // C17: the three messages that print a client-chosen name followed by the peer address and port.
